@@ -1,0 +1,63 @@
+//go:build verif
+
+// Machine-checked contracts (read by /verif/bin/fsv; comment-only, guarded by the verif tag).
+// C12: HandleErrorTypes / AbortOnErrorTypes match "by the type of the error or of anything it wraps or joins".
+
+package util
+
+// Environment (assumed): reflection and the Unwrap methods of foreign error types are deterministic and effect-free.
+//@ extfunc reflect.TypeOf
+//@   modifies nothing
+//@   ensures result == uf("rtype", i) && (i != nil ==> result != nil)
+//@ extfunc reflect.Type.AssignableTo
+//@   modifies nothing
+//@   ensures result == ufb("assignable", self, u)
+//@ extfunc interface{Unwrap() error}.Unwrap
+//@   modifies nothing
+//@   ensures result == uf("unwrap1", self)
+//@ extfunc interface{Unwrap() []error}.Unwrap
+//@   modifies nothing
+//@   ensures len(result) == uf("unwrapN.len", self) && (forall j int :: 0 <= j && j < len(result) ==> result[j] == uf("unwrapN.at", self, j))
+
+// The specification: e matches T when e's own type is assignable to T, or (e wraps a single cause) the cause matches,
+// or (e joins several errors) one of the joined errors matches. A type with both Unwrap forms is treated as the
+// single-cause form, as errors.As does.
+//@ macro wraps1(e) = implements(e, interface{ Unwrap() error })
+//@ macro wrapsN(e) = implements(e, interface{ Unwrap() []error })
+//@ pure unfold func errMatches(e iface, T iface) bool = ufb("assignable", uf("rtype", e), T) || ite(wraps1(e), uf("unwrap1", e) != nil && errMatches(uf("unwrap1", e), T), wrapsN(e) && (exists j int :: 0 <= j && j < uf("unwrapN.len", e) && uf("unwrapN.at", e, j) != nil && errMatches(uf("unwrapN.at", e, j), T)))
+
+// cur: the error currently looked at (the loop re-binds err while walking the single-cause chain); err: the argument
+//@ func errorAs
+//@   requires err != nil && targetType != nil
+//@   loop 0 invariant local("err") != nil && errMatches(local("err"), targetType) == errMatches(err, targetType)
+//@   loop 1 invariant -1 <= rangeindex && local("err") != nil && wrapsN(local("err")) && (forall j int :: 0 <= j && j <= rangeindex ==> uf("unwrapN.at", local("err"), j) == nil || !errMatches(uf("unwrapN.at", local("err"), j), targetType))
+//@   loop 1 invariant errMatches(local("err"), targetType) == errMatches(err, targetType) && !wraps1(local("err")) && !ufb("assignable", uf("rtype", local("err")), targetType)
+//@   loop 1 decreases uf("unwrapN.len", local("err")) - rangeindex
+//@   ensures [C12.errortypes.wraps_and_joins] result == errMatches(err, targetType)
+//@   modifies methodcalls
+
+// Which type is looked for: the target's own type, dereferenced once when the target is a pointer, and taken as a
+// pointer again when the dereferenced type is neither an interface nor an error (kinds: reflect.Ptr = 22, reflect.Interface = 20).
+//@ extfunc reflect.Type.Kind
+//@   modifies nothing
+//@   ensures result == uf("rkind", self)
+//@ extfunc reflect.Type.Elem
+//@   modifies nothing
+//@   ensures result == uf("relem", self) && result != nil
+//@ extfunc reflect.Type.Implements
+//@   modifies nothing
+//@   ensures result == ufb("rimplements", self, u)
+//@ extfunc reflect.PointerTo
+//@   modifies nothing
+//@   ensures result == uf("rptrto", t) && result != nil
+//@ macro derefType(t) = ite(uf("rkind", t) == 22, uf("relem", t), t)
+//@ macro needsPtr(t) = uf("rkind", t) != 20 && !ufb("rimplements", t, global("github.com/failsafe-go/failsafe-go/internal/util.errorType"))
+//@ macro normType(target) = ite(needsPtr(derefType(uf("rtype", target))), uf("rptrto", derefType(uf("rtype", target))), derefType(uf("rtype", target)))
+//@ macro validErrTarget(target) = target != nil && (needsPtr(derefType(uf("rtype", target))) ==> ufb("rimplements", uf("rptrto", derefType(uf("rtype", target))), global("github.com/failsafe-go/failsafe-go/internal/util.errorType")))
+//@ macro errTypesMatch(err, target) = err != nil && errMatches(err, normType(target))
+
+// (a nil target, or a target that is neither an interface nor an error, panics: documented, outside the property)
+//@ func ErrorTypesMatch
+//@   requires validErrTarget(target)
+//@   ensures [C12.errortypes.match] result == errTypesMatch(err, target)
+//@   modifies methodcalls
